@@ -235,5 +235,118 @@ fn pick_minimal_compaction(
 }
 //@ END
 
+// ---- leveled::Strategy::choose: the statements that build the L0 -> L1 compaction and the L1+ compaction ----
+struct Level { runs: Vec<Run> }
+/// every table of every run of the level
+spec fn in_level(l: Level, t: Table) -> bool { exists|i: int, j: int| 0 <= i < l.runs@.len() && 0 <= j < l.runs@[i].0@.len() && #[trigger] l.runs@[i].0@[j] == t }
+spec fn level_wf(l: Level) -> bool { forall|i: int| 0 <= i < l.runs@.len() ==> run_wf((#[trigger] l.runs@[i]).0@) }
+impl Level {
+    /// Level::list_ids: the ids of all tables of the level (src/version/mod.rs)
+    #[verifier::external_body]
+    fn list_ids(&self) -> (r: IdSet) ensures forall|t: Table| in_level(*self, t) ==> r.view().contains(#[trigger] t.id) { unimplemented!() }
+    /// Level::aggregate_key_range covers every table of the level (KeyRange::aggregate, C01.10; Run::aggregate_key_range, C01.30)
+    #[verifier::external_body]
+    fn aggregate_key_range(&self) -> (r: KeyRange) ensures r.lo <= r.hi, forall|t: Table| #[trigger] in_level(*self, t) ==> r.lo <= t.lo && t.hi <= r.hi { unimplemented!() }
+    #[verifier::external_body]
+    fn is_disjoint(&self) -> (r: bool) ensures r == (self.runs@.len() == 1) { unimplemented!() }
+    fn first_run(&self) -> (r: Option<&Run>) ensures self.runs@.len() > 0 ==> r == Some(&self.runs@[0]), self.runs@.len() == 0 ==> r is None
+    { if self.runs.len() > 0 { Some(&self.runs[0]) } else { None } }
+}
+#[verifier::external_body] struct IdVec { p: u8 }
+impl IdVec {
+    uninterp spec fn view(&self) -> Set<u64>;
+    #[verifier::external_body]
+    fn is_empty(&self) -> (r: bool) ensures r == (self.view() =~= Set::<u64>::empty()) { unimplemented!() }
+}
+impl IdSet {
+    /// `ids.extend(&vec_of_ids)`
+    #[verifier::external_body]
+    fn extend_vec(&mut self, v: &IdVec) ensures final(self).view() == old(self).view().union(v.view()) { unimplemented!() }
+}
+spec fn all_ids_in(s: Seq<Table>, ids: Set<u64>) -> bool { forall|j: int| 0 <= j < s.len() ==> ids.contains((#[trigger] s[j]).id) }
+spec fn called_and_collected<'a, F: FnMut(&'a Run) -> &'a [Table]>(f: F, run: Run, ids: Set<u64>) -> bool { exists|s: &'a [Table]| #[trigger] call_ensures(f, (&run,), s) && all_ids_in(s@, ids) }
+/// `level.iter().flat_map(f).map(Table::id).collect::<Vec<_>>()`: the ids of every table f yields for some run of the level
+#[verifier::external_body]
+fn flat_map_ids<'a, F: FnMut(&'a Run) -> &'a [Table]>(level: &'a Level, f: F) -> (r: IdVec)
+    requires forall|i: int| 0 <= i < level.runs@.len() ==> call_requires(f, (&#[trigger] level.runs@[i],)),
+    ensures forall|i: int| 0 <= i < level.runs@.len() ==> called_and_collected(f, #[trigger] level.runs@[i], r.view()),
+{ unimplemented!() }
+
+//@ FROM src/compaction/mod.rs :: - :: struct Input
+//@ SUBST `HashSet < TableId >` ==> `IdSet`
+struct Input {
+    table_ids: IdSet,
+
+    dest_level: u8,
+
+    canonical_level: u8,
+
+    target_size: u64,
+}
+//@ END
+type CompactionInput = Input;
+enum Choice { DoNothing, Move(CompactionInput), Merge(CompactionInput), Drop(IdSet) }
+struct Strategy { target_size: u64 }
+/// the chosen ids contain every table of `target` that shares a key with a table of `src`
+spec fn pulls_in_overlapping(src: Level, target: Level, ids: Set<u64>) -> bool {
+    forall|t: Table, u: Table| #[trigger] in_level(src, t) && #[trigger] in_level(target, u) && shares_key(t, u) ==> ids.contains(u.id)
+}
+
+//@ WRAPPER_BEGIN
+impl Strategy {
+    /// wrapper (generated, R10) around the statements of choose that build the L0 -> L1 compaction
+    fn l0_into_l1(&self, first_level: &Level, target_level: &Level, canonical_l1_idx: usize) -> (r: Choice)
+        requires level_wf(*first_level), level_wf(*target_level), canonical_l1_idx < 7,
+        ensures (r is Move || r is Merge) && ({ let inp = if r is Move { r->Move_0 } else { r->Merge_0 };
+            inp.dest_level == canonical_l1_idx
+            // all of L0 is taken, together with EVERY table of the target level that shares a key with an L0 table   // @OBL C01.41, C07.17
+            && (forall|t: Table| in_level(*first_level, t) ==> inp.table_ids.view().contains(#[trigger] t.id))
+            && pulls_in_overlapping(*first_level, *target_level, inp.table_ids.view()) }),
+    {
+//@ FROM src/compaction/leveled/mod.rs :: CompactionStrategy for Strategy :: fn choose :: BLOCK 1 `if level_idx_with_highest_score == 0 {` :: STMTS `let mut table_ids =` .. `return Choice` :: OBL C01.41, C07.17
+//@ SUBST `target_level . iter ( ) . flat_map ( $1 ) . map ( Table :: id ) . collect ( )` ==> `flat_map_ids(target_level, $1)`
+//@ SUBST `let target_level_overlapping_table_ids : Vec < _ > =` ==> `let target_level_overlapping_table_ids =`
+//@ SUBST `table_ids . extend ( & target_level_overlapping_table_ids ) ;` ==> `table_ids.extend_vec(&target_level_overlapping_table_ids);`
+            let mut table_ids = first_level.list_ids();
+
+            let key_range = first_level.aggregate_key_range();
+
+            // Get overlapping tables in next level
+            let target_level_overlapping_table_ids = flat_map_ids(target_level, |run/*+*/: &Run/*-*/| /*+*/-> (s: &[Table]) requires run_wf(run.0@)
+                ensures exists|lo: int| #[trigger] piece_at(run.0@, s@, lo) && forall|i: int| 0 <= i < run.0@.len() && (#[trigger] run.0@[i]).lo <= key_range.hi && key_range.lo <= run.0@[i].hi ==> lo <= i < lo + s@.len() {/*-*/ run.get_overlapping(&key_range) /*+*/}/*-*/);
+
+            table_ids.extend_vec(&target_level_overlapping_table_ids);
+
+            let choice = CompactionInput {
+                table_ids,
+                dest_level: canonical_l1_idx as u8,
+                canonical_level: 1,
+                target_size: self.target_size,
+            };
+            /*+*/proof {
+                assert forall|t: Table, u: Table| #[trigger] in_level(*first_level, t) && #[trigger] in_level(*target_level, u) && shares_key(t, u) implies choice.table_ids.view().contains(u.id) by {
+                    let (i, j) = choose|i: int, j: int| 0 <= i < target_level.runs@.len() && 0 <= j < target_level.runs@[i].0@.len() && #[trigger] target_level.runs@[i].0@[j] == u;
+                    let run = target_level.runs@[i];
+                    assert(run_wf(run.0@));
+                    let ghost_ids = target_level_overlapping_table_ids.view();
+                    // the closure was called on this run and everything it returned was collected
+                    assert(exists|s: &[Table]| #[trigger] all_ids_in(s@, ghost_ids) && (exists|lo: int| #[trigger] piece_at(run.0@, s@, lo) && forall|k: int| 0 <= k < run.0@.len() && (#[trigger] run.0@[k]).lo <= key_range.hi && key_range.lo <= run.0@[k].hi ==> lo <= k < lo + s@.len()));
+                    let s = choose|s: &[Table]| #[trigger] all_ids_in(s@, ghost_ids) && (exists|lo: int| #[trigger] piece_at(run.0@, s@, lo) && forall|k: int| 0 <= k < run.0@.len() && (#[trigger] run.0@[k]).lo <= key_range.hi && key_range.lo <= run.0@[k].hi ==> lo <= k < lo + s@.len());
+                    let lo = choose|lo: int| #[trigger] piece_at(run.0@, s@, lo) && forall|k: int| 0 <= k < run.0@.len() && (#[trigger] run.0@[k]).lo <= key_range.hi && key_range.lo <= run.0@[k].hi ==> lo <= k < lo + s@.len();
+                    assert(run.0@[j] == u);
+                    assert(lo <= j < lo + s@.len());
+                    assert(s@[j - lo] == u);
+                }
+            }/*-*/
+
+            if target_level_overlapping_table_ids.is_empty() && first_level.is_disjoint() {
+                return Choice::Move(choice);
+            }
+            return Choice::Merge(choice);
+//@ END
+    }
+}
+//@ WRAPPER_END
+
 } // verus!
 fn main() {}
